@@ -37,7 +37,7 @@ SUP, SYNC, STEP = 0.2, 2.0, 0.05
 RANDBITS = 39321          # -> suppression timer 0.2*(0.5+0.6)=0.22 s, periodic timer 2.0*(0.9+0.12)=2.04 s
 TICKS = {'tick-short': 2, 'tick-sup': 6, 'tick-long': 44}
 VECTORS = ('newer-a', 'newer-ab', 'equal', 'older-a', 'older-all', 'incomparable', 'unknown-new', 'unknown-zero', 'only-unknown',
-           'self-ahead', 'self-behind', 'noseq-first', 'noseq-last', 'noseq-self', 'noid', 'malformed-overrun', 'malformed-uint-width', 'malformed-critical',
+           'self-ahead', 'self-behind', 'self-ahead-then-behind', 'self-behind-then-ahead', 'noseq-first', 'noseq-last', 'noseq-self', 'noid', 'malformed-overrun', 'malformed-uint-width', 'malformed-critical',
            'malformed-type', 'empty-vector', 'long-name')
 MALFORMED = ('malformed-overrun', 'malformed-uint-width', 'malformed-critical', 'malformed-type')
 EVENTS = VECTORS + ('pub', 'pub2') + tuple(TICKS)
@@ -102,6 +102,11 @@ def vector_entries(kind, L, self_seq):
         return [('a', g('a') + 1), ('s', self_seq + 1), ('b', g('b') + 1)]
     if kind == 'self-behind':
         return [('s', dn('s')), ('a', g('a'))]
+    # the own node id listed twice, one of the two entries claiming more than was produced: every entry counts
+    if kind == 'self-ahead-then-behind':
+        return [('s', self_seq + 1), ('a', g('a') + 1), ('s', dn('s'))]
+    if kind == 'self-behind-then-ahead':
+        return [('s', dn('s')), ('b', g('b') + 2), ('s', self_seq + 3)]
     if kind == 'noseq-first':
         return [('b', None), ('a', g('a') + 1)]
     if kind == 'noseq-last':
@@ -246,7 +251,7 @@ class Checked:
         R_full = {IDB[k]: s for k, s in entries if k is not None and s is not None}
         defective_entry = any(k is None or s is None for k, s in entries)
         outcomes = []           # (effective vector or None when ignored)
-        if ignorable or R_full.get(IDB['s'], 0) > self.m_seq:
+        if ignorable or any(k == 's' and s is not None and s > self.m_seq for k, s in entries):
             outcomes = [None]
         elif defective_entry:
             outcomes = [None, R_full]
